@@ -60,7 +60,17 @@ def c13(tier):
         pick += rnd.sample(docs, min(len(docs), 1500))
     for j, src in enumerate(pick):
         corners.append(("rest_syntax" if j % 2 == 0 else "grpc_syntax", {"bytes": "prog:" + src}))
-    ck.extra["opl_documents_sent_to_syntax_check"] = len(pick)
+    # ... and a string literal with invalid UTF-8 in the place of every token of a valid document (sent as hex)
+    import p_opl
+    toks = p_opl.tokens_of(p_opl.GOOD)
+    nbad = 0
+    for i, tk in enumerate(toks):
+        if tk.isspace():
+            continue
+        doc = "".join(toks[:i]).encode() + b"'\xff\xfe'" + "".join(toks[i + 1:]).encode()
+        corners.append(("grpc_syntax" if nbad % 3 else "rest_syntax", {"bytes": "progx:" + doc.hex()}))
+        nbad += 1
+    ck.extra["opl_documents_sent_to_syntax_check"] = len(pick) + nbad
     for ep, f in corners:
         reqs.append({"i": len(reqs), "ep": ep, "fields": f, "readonly": ep not in ("rest_create", "rest_delete", "rest_patch", "grpc_transact", "grpc_delete", "rest_wrong_route")})
     pending = list(reqs)
